@@ -375,6 +375,15 @@ impl Error {
     pub(crate) fn error_code(self) -> ErrorCode {
         self.err.code
     }
+
+    /// Describe the position of the error in `json` at `index`, if it has a position.
+    #[cold]
+    pub(crate) fn relocate(self, json: &[u8], index: usize) -> Self {
+        if self.err.line == 0 {
+            return self;
+        }
+        Error::syntax(self.err.code, json, index.min(json.len()))
+    }
 }
 
 impl serde::de::StdError for Error {
